@@ -92,7 +92,16 @@ JudgeLex(s, e) ==
            hs == Sel(toks, LAMBDA t : t.k = "Header") IN
     (IF Len(hs) = 1 /\ e.toks[1].k = "Header" /\ s.header # <<>> /\ hs[1].profile = s.header[1].profile /\ hs[1].library = s.header[1].library
         THEN {} ELSE {"C01/Lex/Header"})
-    \cup (IF Len(ds) = Len(s.data) /\ \A i \in DOMAIN ds : ds[i].k = s.data[i].k /\ TokSame(ds[i], s.data[i]) THEN {} ELSE {"C01/Lex/DataStream"})
+    \* C01: the messages in write order with every field equal; every schema / channel record handed to the writer comes
+    \* back (as a set: where and how often definitions are placed is the writer's business, C05 judges it); and each
+    \* message is preceded by the record of its channel
+    \cup (LET wm == Sel(s.data, LAMBDA r : r.k = "Message")  rm == Sel(ds, LAMBDA r : r.k = "Message")
+              wd == Sel(s.data, LAMBDA r : r.k # "Message")  rd == Sel(ds, LAMBDA r : r.k # "Message") IN
+          IF /\ Len(rm) = Len(wm) /\ \A i \in DOMAIN wm : TokSame(rm[i], wm[i])
+             /\ \A i \in DOMAIN wd : \E j \in DOMAIN rd : rd[j].k = wd[i].k /\ TokSame(rd[j], wd[i])
+             /\ \A j \in DOMAIN rd : \E i \in DOMAIN wd : rd[j].k = wd[i].k /\ TokSame(rd[j], wd[i])
+             /\ \A i \in DOMAIN ds : ds[i].k = "Message" => \E j \in 1 .. i - 1 : ds[j].k = "Channel" /\ ds[j].id = ds[i].ch
+          THEN {} ELSE {"C01/Lex/DataStream"})
     \cup (IF Len(as) = Len(s.atts) /\ \A i \in DOMAIN as : SameAtt(as[i], s.atts[i]) /\ ~as[i].dataerr /\ as[i].crcread /\ (e.attcrc => as[i].crcmatch)
              THEN {} ELSE {"C01/Lex/Attachments"})
     \cup (IF Len(ms) = Len(s.mds) /\ \A i \in DOMAIN ms : SameMd(ms[i], s.mds[i]) THEN {} ELSE {"C01/Lex/Metadata"})
